@@ -893,6 +893,20 @@ func (env *Env) call(c *ECall) Val {
 			}
 		}
 		return Val{fmt.Sprintf("(select %s %s)", env.ex.compGet(env.st, g.allocComp()), ref), tBool}
+	case "string": // string(b) for a []byte b: the string spelled by its current contents
+		need(1)
+		v := env.value(arg(0))
+		if v.G.T != nil {
+			if sli, ok := v.G.T.Underlying().(*types.Slice); ok {
+				if b, ok := sli.Elem().Underlying().(*types.Basic); ok && b.Kind() == types.Uint8 {
+					return Val{env.ex.ofBytes(env.st, sli.Elem(), v.S), GType{T: types.Typ[types.String]}}
+				}
+			}
+			if b, ok := v.G.T.Underlying().(*types.Basic); ok && b.Info()&types.IsString != 0 {
+				return Val{v.S, GType{T: types.Typ[types.String]}}
+			}
+		}
+		sfail("string(x): x must be a []byte or a string")
 	case "sameArray": // two slices share their backing array
 		need(2)
 		a, b := env.value(arg(0)), env.value(arg(1))
